@@ -25,6 +25,7 @@ import WntrModel.Model.Tank
 import WntrModel.Lemmas.TankInterp
 import WntrModel.Lemmas.TankRun
 import WntrModel.Lemmas.ControlsLimit
+import WntrModel.Lemmas.TankRound
 import Mathlib.Tactic.Ring
 import Mathlib.Tactic.Linarith
 import Mathlib.Tactic.FieldSimp
@@ -597,6 +598,564 @@ theorem limit_one_sided_min (pi : Rat) (t : Tank) (hc : t.curve = none) (hpi : 0
   rw [e] at hlt1
   linarith
 
+/-- filling cylinder (`q > 0`): any accepted step cut by at least the backtrack leaves the value below `θ + q/A` -/
+theorem limit_one_sided_max (pi : Rat) (t : Tank) (hc : t.curve = none) (hpi : 0 < pi) (hd : t.diam ≠ 0) (a : Attr)
+    (thr prev q dt : Rat) (hq : 0 < q) (B : Int)
+    (hB : ((attrValue t (updateHead pi t prev prev q dt) a - thr) * pi / 4 * (t.diam * t.diam) / q).floor ≤ B) :
+    attrValue t (acceptedHead pi t prev q dt B) a < thr + q / area pi t := by
+  set x := (attrValue t (updateHead pi t prev prev q dt) a - thr) * pi / 4 * (t.diam * t.diam) / q with hx
+  have hpi' : pi ≠ 0 := ne_of_gt hpi
+  have hqn : q ≠ 0 := ne_of_gt hq
+  have hA : 0 < area pi t := by
+    unfold area
+    have : 0 < t.diam * t.diam := by
+      rcases lt_or_gt_of_ne hd with h | h
+      · exact mul_pos_of_neg_of_neg h h
+      · exact mul_pos h h
+    exact mul_pos (div_pos hpi (by norm_num)) this
+  have key : (attrValue t (acceptedHead pi t prev q dt B) a - thr) * area pi t / q = x - (B : Rat) := by
+    have hacc : acceptedHead pi t prev q dt B
+        = updateHead pi t prev prev q dt + (-(4 * (q * (B : Rat)) / (pi * (t.diam * t.diam)))) := by
+      unfold acceptedHead updateHead
+      rw [hc]
+      field_simp
+      ring
+    rw [hacc, attrValue_shift, hx]
+    unfold area
+    field_simp
+    ring
+  have f2 := Rat.lt_floor_add_one x
+  have f3 : ((x.floor + 1 : Int) : Rat) = (x.floor : Rat) + 1 := by push_cast; ring
+  rw [f3] at f2
+  have hBr : (x.floor : Rat) ≤ (B : Rat) := by exact_mod_cast hB
+  have hlt1 : (attrValue t (acceptedHead pi t prev q dt B) a - thr) * area pi t / q < 1 := by rw [key]; linarith
+  have hAn : area pi t ≠ 0 := ne_of_gt hA
+  have hdiv : 0 < area pi t / q := div_pos hA hq
+  have e : (attrValue t (acceptedHead pi t prev q dt B) a - thr) * area pi t / q
+      = (attrValue t (acceptedHead pi t prev q dt B) a - thr) * (area pi t / q) := by ring
+  rw [e] at hlt1
+  by_contra hh
+  have h3 : q / area pi t ≤ attrValue t (acceptedHead pi t prev q dt B) a - thr := by linarith [not_lt.mp hh]
+  have h4 : (q / area pi t) * (area pi t / q) ≤ (attrValue t (acceptedHead pi t prev q dt B) a - thr) * (area pi t / q) :=
+    mul_le_mul_of_nonneg_right h3 (le_of_lt hdiv)
+  have h5 : (q / area pi t) * (area pi t / q) = 1 := by field_simp
+  linarith
+
+open Wntr.TankRun Wntr.Controls in
+/-- `step_limit_min` — Hcut DERIVED for one step of `TankRun.step` (not the first step): cylindrical tank `i` draining
+(`q < 0`) and not at its minimum at the previous accepted step; its min-level close control `ctls[j]` (presolve, condition
+`head ≤ min_level + elevation`, action `_internal_status(link k) := Closed`) has `_last_value` = the previous accepted head; link `k`
+is one whose closing the tracker sees (`closes_of_open_nonvalve`: an open tracked pipe/pump); every presolve writer of that
+`_internal_status` closes; the due backtracks are non-negative.  Then the head saved by this step is above
+`min_head + q/A` — less than one second of flow below the minimum. -/
+theorem step_limit_min (cfg : Cfg) (s : St) (r : TankRun.Row) (hrow : (step cfg s).rows = r :: s.rows)
+    (hfirst : s.first = false) (i j k : Nat) (t : Tank) (rc : TankRun.RCtl)
+    (ht : cfg.tanks[i]? = some t) (hcyl : t.curve = none) (hpi : 0 < cfg.pi) (hd : t.diam ≠ 0)
+    (hrc : cfg.ctls[j]? = some rc) (hpre : rc.pre = true)
+    (hcond : rc.cond = TankRun.Cond.level i ⟨.head, .le, t.minLevel + t.elev⟩) (hact : rc.ctl.act = ⟨k, .internal, 0⟩)
+    (p hcur q : Rat) (dem : List Rat) (hp : s.prevHeads[i]? = some p) (hh : s.heads[i]? = some hcur)
+    (hdem : s.demand = some dem) (hq : dem[i]? = some q) (hneg : q < 0)
+    (hlast : s.lasts.getD j 0 = p) (hnot : Rel.le.holds p (t.minLevel + t.elev) = false)
+    (hcl : Closes cfg.tracked s.links k) (hk : k < s.links.length)
+    (hint : ∀ rc' : TankRun.RCtl, rc' ∈ cfg.ctls → rc'.pre = true → rc'.ctl.hits k .internal → rc'.ctl.act.value = 0)
+    (hback : ∀ d ∈ (preCheck cfg s).1, 0 ≤ d.back) :
+    ∃ h2, r.heads[i]? = some h2 ∧ t.minLevel + t.elev + q / area cfg.pi t < h2 := by
+  -- the row of this step
+  have hr : r.time = (preResult cfg s).2 ∧ r.heads = acceptedHeads cfg s := by
+    rcases step_rows cfg s with e | ⟨r', e, _, h1, h2, _⟩
+    · rw [e] at hrow; simp at hrow
+    · rw [e] at hrow
+      have : r' = r := by simpa using hrow
+      subst this; exact ⟨h1, h2⟩
+  set θ := t.minLevel + t.elev with hθ
+  set dt0 : Rat := ((s.simTime - s.prevTime : Int) : Rat) with hdt0
+  -- tentative and accepted head of tank i
+  have htent : (tentativeHeads cfg s)[i]? = some (updateHead cfg.pi t p p q dt0) := by
+    unfold tentativeHeads
+    simp only [hfirst, Bool.false_eq_true, if_false, hdem, Option.getD_some]
+    obtain ⟨h, e1, e2⟩ := updHeads_get cfg.pi cfg.tanks s.prevHeads s.heads dem dt0 i t p q ht hp hq
+      (by have := List.getElem?_eq_some_iff.mp hh; exact this.1)
+    rw [e2, update_independent_of_head cfg.pi t p h p q dt0]
+  set t1 := (preResult cfg s).2 with ht1
+  have hacc : (acceptedHeads cfg s)[i]? = some (updateHead cfg.pi t p p q (((t1 - s.prevTime : Int)) : Rat)) := by
+    unfold acceptedHeads
+    simp only [hfirst, Bool.false_eq_true, if_false, hdem, Option.getD_some]
+    obtain ⟨h, e1, e2⟩ := updHeads_get cfg.pi cfg.tanks s.prevHeads (tentativeHeads cfg s) dem (((t1 - s.prevTime : Int)) : Rat) i t p q ht hp hq
+      (by have := List.getElem?_eq_some_iff.mp htent; exact this.1)
+    rw [e2, update_independent_of_head cfg.pi t p h p q _]
+  refine ⟨_, by rw [hr.2]; exact hacc, ?_⟩
+  set B : Int := s.simTime - t1 with hB
+  have hdt1 : (((t1 - s.prevTime : Int)) : Rat) = dt0 - (B : Rat) := by rw [hdt0, hB]; push_cast; ring
+  have hpre_eq : preResult cfg s = presolve cfg.tracked false (preCheck cfg s).1 s.links s.simTime := by
+    unfold preResult; rw [hfirst]
+  set hT := updateHead cfg.pi t p p q dt0 with hhT
+  have hA : 0 < area cfg.pi t := by
+    unfold area
+    have : 0 < t.diam * t.diam := by
+      rcases lt_or_gt_of_ne hd with h | h
+      · exact mul_pos_of_neg_of_neg h h
+      · exact mul_pos h h
+    exact mul_pos (div_pos hpi (by norm_num)) this
+  by_cases hhold : Rel.le.holds hT θ = true
+  · -- crossing: the close control is due with the backtrack of the crossing
+    have hX : Crossing t ⟨.head, .le, θ⟩ hT p := ⟨by simpa [foldRel, attrValue] using hhold, by simpa [foldRel] using hnot⟩
+    have hev := backtrack_cylinder cfg.pi t hcyl ⟨.head, .le, θ⟩ hT q p (ne_of_lt hneg) hX
+    have hcs := (check_spec cfg (·.pre) (tentativeHeads cfg s) s.demand none s.prevTime s.simTime cfg.ctls s.lasts j rc hrc hpre).2
+    rw [hlast, hcond] at hcs
+    simp only [evalCond, ht, htent, hdem, demandOf, Option.bind_some, hq] at hcs
+    rw [hev] at hcs
+    have hdue := hcs rfl
+    have hle := presolve_time_le cfg.tracked (preCheck cfg s).1 s.links s.simTime
+      (⟨rc.ctl, ((attrValue t hT .head - θ) * cfg.pi / 4 * (t.diam * t.diam) / q).floor⟩ : Due) (by unfold preCheck; rw [hdem]; exact hdue)
+      (by show rc.ctl.act.field = _; rw [hact]) (by show rc.ctl.act.value = _; rw [hact])
+      (by show rc.ctl.act.link < _; rw [hact]; exact hk) (by show Closes _ _ rc.ctl.act.link; rw [hact]; exact hcl)
+      (by
+        intro e he hh'
+        obtain ⟨rc', hr', hp', he'⟩ := check_due_src cfg (·.pre) _ _ _ _ _ cfg.ctls s.lasts e he
+        have hl : rc.ctl.act.link = k := by rw [hact]
+        change e.ctl.hits rc.ctl.act.link .internal at hh'
+        rw [hl, he'] at hh'
+        rw [he']
+        exact hint rc' hr' hp' hh')
+    rw [← hpre_eq] at hle
+    simp only [attrValue] at hle
+    have hBge : ((attrValue t (updateHead cfg.pi t p p q dt0) .head - θ) * cfg.pi / 4 * (t.diam * t.diam) / q).floor ≤ B := by
+      simp only [attrValue] at hle ⊢; rw [hB, ← hhT]; omega
+    have := limit_one_sided_min cfg.pi t hcyl hpi hd .head θ p q dt0 hneg B hBge
+    simp only [attrValue, acceptedHead] at this
+    rw [hdt1]; exact this
+  · -- no crossing: the tentative head is above the minimum and the accepted step is not longer than the tentative one
+    have hgt : θ < hT := not_holds_le (by simpa using hhold)
+    have hB0 : 0 ≤ B := by
+      have := presolve_time_le_t cfg.tracked s.first (preCheck cfg s).1 s.links s.simTime hback
+      rw [hB, ht1]; unfold preResult; omega
+    have hBr : (0 : Rat) ≤ (B : Rat) := by exact_mod_cast hB0
+    have hmono : hT ≤ updateHead cfg.pi t p p q (dt0 - (B : Rat)) := by
+      rw [hhT]
+      unfold updateHead
+      rw [hcyl]
+      have hpos : 0 < cfg.pi * (t.diam * t.diam) := by
+        have : 0 < t.diam * t.diam := by
+          rcases lt_or_gt_of_ne hd with h | h
+          · exact mul_pos_of_neg_of_neg h h
+          · exact mul_pos h h
+        exact mul_pos hpi this
+      have : 4 * (q * dt0) / (cfg.pi * (t.diam * t.diam)) ≤ 4 * (q * (dt0 - (B : Rat))) / (cfg.pi * (t.diam * t.diam)) := by
+        apply div_le_div_of_nonneg_right _ (le_of_lt hpos)
+        nlinarith
+      linarith
+    have hqa : q / area cfg.pi t < 0 := by
+      rw [div_eq_mul_inv]; exact mul_neg_of_neg_of_pos hneg (inv_pos.mpr hA)
+    rw [hdt1]
+    linarith
+
+open Wntr.TankRun Wntr.Controls in
+/-- `step_limit_max` — Hcut DERIVED for one step of `TankRun.step` (not the first step): cylindrical tank `i` filling
+(`0 < q`) and not at its maximum at the previous accepted step; its max-level close control `ctls[j]` (presolve, condition
+`head ≥ max_level + elevation`, action `_internal_status(link k) := Closed`) has `_last_value` = the previous accepted head; link `k`
+is one whose closing the tracker sees (`closes_of_open_nonvalve`: an open tracked pipe/pump); every presolve writer of that
+`_internal_status` closes; the due backtracks are non-negative.  Then the head saved by this step is below
+`max_head + q/A` — less than one second of flow above the maximum. -/
+theorem step_limit_max (cfg : Cfg) (s : St) (r : TankRun.Row) (hrow : (step cfg s).rows = r :: s.rows)
+    (hfirst : s.first = false) (i j k : Nat) (t : Tank) (rc : TankRun.RCtl)
+    (ht : cfg.tanks[i]? = some t) (hcyl : t.curve = none) (hpi : 0 < cfg.pi) (hd : t.diam ≠ 0)
+    (hrc : cfg.ctls[j]? = some rc) (hpre : rc.pre = true)
+    (hcond : rc.cond = TankRun.Cond.level i ⟨.head, .ge, t.maxLevel + t.elev⟩) (hact : rc.ctl.act = ⟨k, .internal, 0⟩)
+    (p hcur q : Rat) (dem : List Rat) (hp : s.prevHeads[i]? = some p) (hh : s.heads[i]? = some hcur)
+    (hdem : s.demand = some dem) (hq : dem[i]? = some q) (hneg : 0 < q)
+    (hlast : s.lasts.getD j 0 = p) (hnot : Rel.ge.holds p (t.maxLevel + t.elev) = false)
+    (hcl : Closes cfg.tracked s.links k) (hk : k < s.links.length)
+    (hint : ∀ rc' : TankRun.RCtl, rc' ∈ cfg.ctls → rc'.pre = true → rc'.ctl.hits k .internal → rc'.ctl.act.value = 0)
+    (hback : ∀ d ∈ (preCheck cfg s).1, 0 ≤ d.back) :
+    ∃ h2, r.heads[i]? = some h2 ∧ h2 < t.maxLevel + t.elev + q / area cfg.pi t := by
+  -- the row of this step
+  have hr : r.time = (preResult cfg s).2 ∧ r.heads = acceptedHeads cfg s := by
+    rcases step_rows cfg s with e | ⟨r', e, _, h1, h2, _⟩
+    · rw [e] at hrow; simp at hrow
+    · rw [e] at hrow
+      have : r' = r := by simpa using hrow
+      subst this; exact ⟨h1, h2⟩
+  set θ := t.maxLevel + t.elev with hθ
+  set dt0 : Rat := ((s.simTime - s.prevTime : Int) : Rat) with hdt0
+  -- tentative and accepted head of tank i
+  have htent : (tentativeHeads cfg s)[i]? = some (updateHead cfg.pi t p p q dt0) := by
+    unfold tentativeHeads
+    simp only [hfirst, Bool.false_eq_true, if_false, hdem, Option.getD_some]
+    obtain ⟨h, e1, e2⟩ := updHeads_get cfg.pi cfg.tanks s.prevHeads s.heads dem dt0 i t p q ht hp hq
+      (by have := List.getElem?_eq_some_iff.mp hh; exact this.1)
+    rw [e2, update_independent_of_head cfg.pi t p h p q dt0]
+  set t1 := (preResult cfg s).2 with ht1
+  have hacc : (acceptedHeads cfg s)[i]? = some (updateHead cfg.pi t p p q (((t1 - s.prevTime : Int)) : Rat)) := by
+    unfold acceptedHeads
+    simp only [hfirst, Bool.false_eq_true, if_false, hdem, Option.getD_some]
+    obtain ⟨h, e1, e2⟩ := updHeads_get cfg.pi cfg.tanks s.prevHeads (tentativeHeads cfg s) dem (((t1 - s.prevTime : Int)) : Rat) i t p q ht hp hq
+      (by have := List.getElem?_eq_some_iff.mp htent; exact this.1)
+    rw [e2, update_independent_of_head cfg.pi t p h p q _]
+  refine ⟨_, by rw [hr.2]; exact hacc, ?_⟩
+  set B : Int := s.simTime - t1 with hB
+  have hdt1 : (((t1 - s.prevTime : Int)) : Rat) = dt0 - (B : Rat) := by rw [hdt0, hB]; push_cast; ring
+  have hpre_eq : preResult cfg s = presolve cfg.tracked false (preCheck cfg s).1 s.links s.simTime := by
+    unfold preResult; rw [hfirst]
+  set hT := updateHead cfg.pi t p p q dt0 with hhT
+  have hA : 0 < area cfg.pi t := by
+    unfold area
+    have : 0 < t.diam * t.diam := by
+      rcases lt_or_gt_of_ne hd with h | h
+      · exact mul_pos_of_neg_of_neg h h
+      · exact mul_pos h h
+    exact mul_pos (div_pos hpi (by norm_num)) this
+  by_cases hhold : Rel.ge.holds hT θ = true
+  · -- crossing: the close control is due with the backtrack of the crossing
+    have hX : Crossing t ⟨.head, .ge, θ⟩ hT p := ⟨by simpa [foldRel, attrValue] using hhold, by simpa [foldRel] using hnot⟩
+    have hev := backtrack_cylinder cfg.pi t hcyl ⟨.head, .ge, θ⟩ hT q p (ne_of_gt hneg) hX
+    have hcs := (check_spec cfg (·.pre) (tentativeHeads cfg s) s.demand none s.prevTime s.simTime cfg.ctls s.lasts j rc hrc hpre).2
+    rw [hlast, hcond] at hcs
+    simp only [evalCond, ht, htent, hdem, demandOf, Option.bind_some, hq] at hcs
+    rw [hev] at hcs
+    have hdue := hcs rfl
+    have hle := presolve_time_le cfg.tracked (preCheck cfg s).1 s.links s.simTime
+      (⟨rc.ctl, ((attrValue t hT .head - θ) * cfg.pi / 4 * (t.diam * t.diam) / q).floor⟩ : Due) (by unfold preCheck; rw [hdem]; exact hdue)
+      (by show rc.ctl.act.field = _; rw [hact]) (by show rc.ctl.act.value = _; rw [hact])
+      (by show rc.ctl.act.link < _; rw [hact]; exact hk) (by show Closes _ _ rc.ctl.act.link; rw [hact]; exact hcl)
+      (by
+        intro e he hh'
+        obtain ⟨rc', hr', hp', he'⟩ := check_due_src cfg (·.pre) _ _ _ _ _ cfg.ctls s.lasts e he
+        have hl : rc.ctl.act.link = k := by rw [hact]
+        change e.ctl.hits rc.ctl.act.link .internal at hh'
+        rw [hl, he'] at hh'
+        rw [he']
+        exact hint rc' hr' hp' hh')
+    rw [← hpre_eq] at hle
+    simp only [attrValue] at hle
+    have hBge : ((attrValue t (updateHead cfg.pi t p p q dt0) .head - θ) * cfg.pi / 4 * (t.diam * t.diam) / q).floor ≤ B := by
+      simp only [attrValue] at hle ⊢; rw [hB, ← hhT]; omega
+    have := limit_one_sided_max cfg.pi t hcyl hpi hd .head θ p q dt0 hneg B hBge
+    simp only [attrValue, acceptedHead] at this
+    rw [hdt1]; exact this
+  · -- no crossing: the tentative head is above the minimum and the accepted step is not longer than the tentative one
+    have hgt : hT < θ := not_holds_ge (by simpa using hhold)
+    have hB0 : 0 ≤ B := by
+      have := presolve_time_le_t cfg.tracked s.first (preCheck cfg s).1 s.links s.simTime hback
+      rw [hB, ht1]; unfold preResult; omega
+    have hBr : (0 : Rat) ≤ (B : Rat) := by exact_mod_cast hB0
+    have hmono : updateHead cfg.pi t p p q (dt0 - (B : Rat)) ≤ hT := by
+      rw [hhT]
+      unfold updateHead
+      rw [hcyl]
+      have hpos : 0 < cfg.pi * (t.diam * t.diam) := by
+        have : 0 < t.diam * t.diam := by
+          rcases lt_or_gt_of_ne hd with h | h
+          · exact mul_pos_of_neg_of_neg h h
+          · exact mul_pos h h
+        exact mul_pos hpi this
+      have : 4 * (q * (dt0 - (B : Rat))) / (cfg.pi * (t.diam * t.diam)) ≤ 4 * (q * dt0) / (cfg.pi * (t.diam * t.diam)) := by
+        apply div_le_div_of_nonneg_right _ (le_of_lt hpos)
+        nlinarith
+      linarith
+    have hqa : 0 < q / area cfg.pi t := div_pos hneg hA
+    rw [hdt1]
+    linarith
+
+open Wntr.TankRun Wntr.Controls in
+/-- the head of cylindrical tank `i` saved by a step that is not the first one -/
+theorem step_head (cfg : Cfg) (s : St) (r : TankRun.Row) (hrow : (step cfg s).rows = r :: s.rows) (hfirst : s.first = false)
+    (i : Nat) (t : Tank) (ht : cfg.tanks[i]? = some t) (p hcur q : Rat) (dem : List Rat) (hp : s.prevHeads[i]? = some p)
+    (hh : s.heads[i]? = some hcur) (hdem : s.demand = some dem) (hq : dem[i]? = some q) :
+    r.heads[i]? = some (updateHead cfg.pi t p p q ((((preResult cfg s).2 - s.prevTime : Int)) : Rat)) := by
+  have hr : r.heads = acceptedHeads cfg s := by
+    rcases step_rows cfg s with e | ⟨r', e, _, _, h2, _⟩
+    · rw [e] at hrow; simp at hrow
+    · rw [e] at hrow
+      have : r' = r := by simpa using hrow
+      subst this; exact h2
+  have htent : ∃ h, (tentativeHeads cfg s)[i]? = some h := by
+    unfold tentativeHeads
+    simp only [hfirst, Bool.false_eq_true, if_false, hdem, Option.getD_some]
+    obtain ⟨h, _, e2⟩ := updHeads_get cfg.pi cfg.tanks s.prevHeads s.heads dem _ i t p q ht hp hq
+      (by have := List.getElem?_eq_some_iff.mp hh; exact this.1)
+    exact ⟨_, e2⟩
+  obtain ⟨hT, htent⟩ := htent
+  rw [hr]
+  unfold acceptedHeads
+  simp only [hfirst, Bool.false_eq_true, if_false, hdem, Option.getD_some]
+  obtain ⟨h, _, e2⟩ := updHeads_get cfg.pi cfg.tanks s.prevHeads (tentativeHeads cfg s) dem
+    ((((preResult cfg s).2 - s.prevTime : Int)) : Rat) i t p q ht hp hq
+    (by have := List.getElem?_eq_some_iff.mp htent; exact this.1)
+  rw [e2, update_independent_of_head cfg.pi t p h p q _]
+
+namespace RunLimits
+open Wntr.TankRun Wntr.Controls
+
+/-- states reachable from `s0` by `TankRun.step` -/
+inductive Reach (cfg : Cfg) (s0 : St) : St → Prop
+  | refl : Reach cfg s0 s0
+  | step {s : St} : Reach cfg s0 s → Reach cfg s0 (TankRun.step cfg s)
+
+/-- static facts: tank `i` is cylindrical, `ctls[j]` is its min-level close control on link `k` (pre-and-postsolve) and every
+presolve writer of that link's `_internal_status` closes it (true of `_get_all_tank_controls`: `min_close_control_exists`) -/
+structure MinSetup (cfg : Cfg) (i j k : Nat) (t : Tank) (rc : TankRun.RCtl) : Prop where
+  ht : cfg.tanks[i]? = some t
+  hcyl : t.curve = none
+  hpi : 0 < cfg.pi
+  hd : t.diam ≠ 0
+  hrc : cfg.ctls[j]? = some rc
+  hpre : rc.pre = true
+  hpost : rc.post = true
+  hcond : rc.cond = TankRun.Cond.level i ⟨.head, .le, t.minLevel + t.elev⟩
+  hact : rc.ctl.act = ⟨k, .internal, 0⟩
+  hint : ∀ rc' : TankRun.RCtl, rc' ∈ cfg.ctls → rc'.pre = true → rc'.ctl.hits k .internal → rc'.ctl.act.value = 0
+
+/-- what is assumed of a reachable, non-first, non-failed state — everything here is about the SOLVE or about time:
+  * `flow`   (Hflow) a tank whose min-level condition holds on the accepted head does not discharge: `0 ≤ q`;
+  * `open_`  a discharging tank has link `k` open and visible to the tracker — the contrapositive of "closed links carry zero
+             flow" (C02 `closed_link_zero_flow`) for a tank whose outflow goes through `k`, plus `closes_of_open_nonvalve`;
+  * `bound`  `Q` bounds the flow; `backs` the due backtracks are ≥ 0; `time` the accepted time is not before the previous one -/
+structure Good (cfg : Cfg) (i k : Nat) (θ Q : Rat) (s : St) : Prop where
+  dem : ∃ dem q, s.demand = some dem ∧ dem[i]? = some q ∧ -Q ≤ q
+    ∧ (∀ p, s.prevHeads[i]? = some p → Rel.le.holds p θ = true → 0 ≤ q)
+    ∧ (q < 0 → Closes cfg.tracked s.links k ∧ k < s.links.length)
+  backs : ∀ d ∈ (preCheck cfg s).1, 0 ≤ d.back
+  time : s.prevTime ≤ (preResult cfg s).2
+
+/-- `limits_hold_along_run_min`: Hcut is DERIVED (from `step_limit_min`, with the invariant `_last_value` = accepted head carried
+along the run by `step_lasts`); what remains assumed is `Good` — Hflow, "a discharging tank has its outflow link open", and the two
+time facts.  Then every head of tank `i` saved along the whole run is above `min_head − Q/A`. -/
+theorem limits_hold_along_run_min (cfg : Cfg) (links : Links) (heads lasts : List Rat) (i j k : Nat) (t : Tank) (rc : TankRun.RCtl)
+    (S : MinSetup cfg i j k t rc) (Q : Rat) (hQ : 0 ≤ Q)
+    (h0 : ∃ h, heads[i]? = some h ∧ t.minLevel + t.elev - Q / area cfg.pi t ≤ h)
+    (Hgood : ∀ s, Reach cfg (init links heads lasts) s → s.first = false → s.error = false →
+      Good cfg i k (t.minLevel + t.elev) Q s) :
+    ∀ n, ∀ r ∈ (run cfg n (init links heads lasts)).rows, ∀ h, r.heads[i]? = some h →
+      t.minLevel + t.elev - Q / area cfg.pi t ≤ h := by
+  set θ := t.minLevel + t.elev with hθ
+  set A := area cfg.pi t with hAdef
+  have hA : 0 < A := by
+    rw [hAdef]; unfold area
+    have : 0 < t.diam * t.diam := by
+      rcases lt_or_gt_of_ne S.hd with h | h
+      · exact mul_pos_of_neg_of_neg h h
+      · exact mul_pos h h
+    exact mul_pos (div_pos S.hpi (by norm_num)) this
+  -- invariant
+  let J : St → Prop := fun s =>
+    Reach cfg (init links heads lasts) s ∧ (∀ r ∈ s.rows, ∀ h, r.heads[i]? = some h → θ - Q / A ≤ h)
+    ∧ ((s.first = true ∧ ∃ h, s.heads[i]? = some h ∧ θ - Q / A ≤ h)
+       ∨ (s.first = false ∧ ∃ p, s.prevHeads[i]? = some p ∧ s.heads[i]? = some p ∧ s.lasts.getD j 0 = p ∧ θ - Q / A ≤ p))
+  have hstep : ∀ s, J s → s.error = false → J (TankRun.step cfg s) := by
+    intro s ⟨hreach, hrows, hst⟩ herr
+    refine ⟨Reach.step hreach, ?_⟩
+    rcases step_rows cfg s with e | ⟨r, e, _, _, hrh, _, _, hph, _, hfs, _, hhs⟩
+    · rw [e]; exact ⟨hrows, hst⟩
+    · -- a row was produced: bound its head
+      have hbound : ∀ h, r.heads[i]? = some h → θ - Q / A ≤ h := by
+        intro h hh
+        rcases hst with ⟨hf, h', hh', hb'⟩ | ⟨hf, p, hp, hhp, hl, hb⟩
+        · have : r.heads = s.heads := by rw [hrh]; unfold acceptedHeads; simp [hf]
+          rw [this, hh'] at hh; cases hh; exact hb'
+        · obtain ⟨⟨dem, q, hdem, hq, hQb, hflow, hopen⟩, hbacks, htime⟩ := Hgood s hreach hf herr
+          have hhd := step_head cfg s r e hf i t S.ht p p q dem hp hhp hdem hq
+          rw [hhd] at hh; cases hh
+          by_cases hneg : q < 0
+          · have hnot : Rel.le.holds p θ = false := by
+              by_contra hc
+              have := hflow p hp (by simpa using hc)
+              linarith
+            obtain ⟨hcl, hk⟩ := hopen hneg
+            obtain ⟨h2, e2, hlt⟩ := step_limit_min cfg s r e hf i j k t rc S.ht S.hcyl S.hpi S.hd S.hrc S.hpre S.hcond S.hact
+              p p q dem hp hhp hdem hq hneg hl hnot hcl hk S.hint hbacks
+            rw [hhd] at e2; cases e2
+            have : -(Q / A) ≤ q / A := by rw [← neg_div]; exact div_le_div_of_nonneg_right hQb (le_of_lt hA)
+            linarith
+          · -- filling or still: the head does not fall
+            have hq0 : 0 ≤ q := not_lt.mp hneg
+            have hdt : (0 : Rat) ≤ ((((preResult cfg s).2 - s.prevTime : Int)) : Rat) := by
+              have : 0 ≤ (preResult cfg s).2 - s.prevTime := by omega
+              exact_mod_cast this
+            have : p ≤ updateHead cfg.pi t p p q ((((preResult cfg s).2 - s.prevTime : Int)) : Rat) := by
+              unfold updateHead
+              rw [S.hcyl]
+              have hpos : 0 < cfg.pi * (t.diam * t.diam) := by
+                have : 0 < t.diam * t.diam := by
+                  rcases lt_or_gt_of_ne S.hd with h | h
+                  · exact mul_pos_of_neg_of_neg h h
+                  · exact mul_pos h h
+                exact mul_pos S.hpi this
+              have : 0 ≤ 4 * (q * ((((preResult cfg s).2 - s.prevTime : Int)) : Rat)) / (cfg.pi * (t.diam * t.diam)) :=
+                div_nonneg (by positivity) (le_of_lt hpos)
+              linarith
+            linarith
+      refine ⟨?_, ?_⟩
+      · rw [e]; intro x hx h hh
+        rcases List.mem_cons.mp hx with e' | e'
+        · rw [e'] at hh; exact hbound h hh
+        · exact hrows x e' h hh
+      · right
+        refine ⟨hfs, ?_⟩
+        -- tank i has a head in the new row
+        have hex : ∃ h, r.heads[i]? = some h := by
+          rcases hst with ⟨hf, h', hh', _⟩ | ⟨hf, p, hp, hhp, _, _⟩
+          · have : r.heads = s.heads := by rw [hrh]; unfold acceptedHeads; simp [hf]
+            exact ⟨h', by rw [this]; exact hh'⟩
+          · obtain ⟨⟨dem, q, hdem, hq, _⟩, _, _⟩ := Hgood s hreach hf herr
+            exact ⟨_, step_head cfg s r e hf i t S.ht p p q dem hp hhp hdem hq⟩
+        obtain ⟨h, hh⟩ := hex
+        have hl := step_lasts cfg s r e j i rc ⟨.head, .le, θ⟩ t h S.hrc S.hpost S.hcond S.ht S.hcyl hh
+        refine ⟨h, by rw [hph]; exact hh, by rw [hhs]; exact hh, ?_, hbound h hh⟩
+        simp only [attrValue] at hl
+        rw [List.getD_eq_getElem?_getD, hl]; rfl
+  have hrun : ∀ n s, J s → ∀ r ∈ (run cfg n s).rows, ∀ h, r.heads[i]? = some h → θ - Q / A ≤ h := by
+    intro n
+    induction n with
+    | zero => intro s hj; exact hj.2.1
+    | succ m ih =>
+      intro s hj
+      unfold run
+      split
+      · exact hj.2.1
+      · rename_i hc
+        have herr : s.error = false := by
+          simp only [Bool.or_eq_true, decide_eq_true_eq, not_or] at hc
+          simpa using hc.1
+        exact ih _ (hstep s hj herr)
+  intro n
+  apply hrun n
+  refine ⟨Reach.refl, by simp [init], Or.inl ⟨by simp [init], ?_⟩⟩
+  obtain ⟨h, hh, hb⟩ := h0
+  exact ⟨h, by simpa [init] using hh, hb⟩
+
+/-- the same for the max-level close control (`head ≥ max_level + elevation`) -/
+structure MaxSetup (cfg : Cfg) (i j k : Nat) (t : Tank) (rc : TankRun.RCtl) : Prop where
+  ht : cfg.tanks[i]? = some t
+  hcyl : t.curve = none
+  hpi : 0 < cfg.pi
+  hd : t.diam ≠ 0
+  hrc : cfg.ctls[j]? = some rc
+  hpre : rc.pre = true
+  hpost : rc.post = true
+  hcond : rc.cond = TankRun.Cond.level i ⟨.head, .ge, t.maxLevel + t.elev⟩
+  hact : rc.ctl.act = ⟨k, .internal, 0⟩
+  hint : ∀ rc' : TankRun.RCtl, rc' ∈ cfg.ctls → rc'.pre = true → rc'.ctl.hits k .internal → rc'.ctl.act.value = 0
+
+/-- what is assumed of a reachable, non-first, non-failed state — everything here is about the SOLVE or about time:
+  * `flow`   (Hflow) a tank whose max-level condition holds on the accepted head does not fill: `q ≤ 0`;
+  * `open_`  a filling tank has link `k` open and visible to the tracker — the contrapositive of "closed links carry zero
+             flow" (C02 `closed_link_zero_flow`) for a tank whose outflow goes through `k`, plus `closes_of_open_nonvalve`;
+  * `bound`  `Q` bounds the flow; `backs` the due backtracks are ≥ 0; `time` the accepted time is not before the previous one -/
+structure GoodMax (cfg : Cfg) (i k : Nat) (θ Q : Rat) (s : St) : Prop where
+  dem : ∃ dem q, s.demand = some dem ∧ dem[i]? = some q ∧ q ≤ Q
+    ∧ (∀ p, s.prevHeads[i]? = some p → Rel.ge.holds p θ = true → q ≤ 0)
+    ∧ (0 < q → Closes cfg.tracked s.links k ∧ k < s.links.length)
+  backs : ∀ d ∈ (preCheck cfg s).1, 0 ≤ d.back
+  time : s.prevTime ≤ (preResult cfg s).2
+
+/-- `limits_hold_along_run_max`: Hcut is DERIVED (from `step_limit_max`, with the invariant `_last_value` = accepted head carried
+along the run by `step_lasts`); what remains assumed is `Good` — Hflow, "a discharging tank has its outflow link open", and the two
+time facts.  Then every head of tank `i` saved along the whole run is below `max_head + Q/A`. -/
+theorem limits_hold_along_run_max (cfg : Cfg) (links : Links) (heads lasts : List Rat) (i j k : Nat) (t : Tank) (rc : TankRun.RCtl)
+    (S : MaxSetup cfg i j k t rc) (Q : Rat) (hQ : 0 ≤ Q)
+    (h0 : ∃ h, heads[i]? = some h ∧ h ≤ t.maxLevel + t.elev + Q / area cfg.pi t)
+    (Hgood : ∀ s, Reach cfg (init links heads lasts) s → s.first = false → s.error = false →
+      GoodMax cfg i k (t.maxLevel + t.elev) Q s) :
+    ∀ n, ∀ r ∈ (run cfg n (init links heads lasts)).rows, ∀ h, r.heads[i]? = some h →
+      h ≤ t.maxLevel + t.elev + Q / area cfg.pi t := by
+  set θ := t.maxLevel + t.elev with hθ
+  set A := area cfg.pi t with hAdef
+  have hA : 0 < A := by
+    rw [hAdef]; unfold area
+    have : 0 < t.diam * t.diam := by
+      rcases lt_or_gt_of_ne S.hd with h | h
+      · exact mul_pos_of_neg_of_neg h h
+      · exact mul_pos h h
+    exact mul_pos (div_pos S.hpi (by norm_num)) this
+  -- invariant
+  let J : St → Prop := fun s =>
+    Reach cfg (init links heads lasts) s ∧ (∀ r ∈ s.rows, ∀ h, r.heads[i]? = some h → h ≤ θ + Q / A)
+    ∧ ((s.first = true ∧ ∃ h, s.heads[i]? = some h ∧ h ≤ θ + Q / A)
+       ∨ (s.first = false ∧ ∃ p, s.prevHeads[i]? = some p ∧ s.heads[i]? = some p ∧ s.lasts.getD j 0 = p ∧ p ≤ θ + Q / A))
+  have hstep : ∀ s, J s → s.error = false → J (TankRun.step cfg s) := by
+    intro s ⟨hreach, hrows, hst⟩ herr
+    refine ⟨Reach.step hreach, ?_⟩
+    rcases step_rows cfg s with e | ⟨r, e, _, _, hrh, _, _, hph, _, hfs, _, hhs⟩
+    · rw [e]; exact ⟨hrows, hst⟩
+    · -- a row was produced: bound its head
+      have hbound : ∀ h, r.heads[i]? = some h → h ≤ θ + Q / A := by
+        intro h hh
+        rcases hst with ⟨hf, h', hh', hb'⟩ | ⟨hf, p, hp, hhp, hl, hb⟩
+        · have : r.heads = s.heads := by rw [hrh]; unfold acceptedHeads; simp [hf]
+          rw [this, hh'] at hh; cases hh; exact hb'
+        · obtain ⟨⟨dem, q, hdem, hq, hQb, hflow, hopen⟩, hbacks, htime⟩ := Hgood s hreach hf herr
+          have hhd := step_head cfg s r e hf i t S.ht p p q dem hp hhp hdem hq
+          rw [hhd] at hh; cases hh
+          by_cases hneg : 0 < q
+          · have hnot : Rel.ge.holds p θ = false := by
+              by_contra hc
+              have := hflow p hp (by simpa using hc)
+              linarith
+            obtain ⟨hcl, hk⟩ := hopen hneg
+            obtain ⟨h2, e2, hlt⟩ := step_limit_max cfg s r e hf i j k t rc S.ht S.hcyl S.hpi S.hd S.hrc S.hpre S.hcond S.hact
+              p p q dem hp hhp hdem hq hneg hl hnot hcl hk S.hint hbacks
+            rw [hhd] at e2; cases e2
+            have : q / A ≤ Q / A := div_le_div_of_nonneg_right hQb (le_of_lt hA)
+            linarith
+          · -- draining or still: the head does not rise
+            have hq0 : q ≤ 0 := not_lt.mp hneg
+            have hdt : (0 : Rat) ≤ ((((preResult cfg s).2 - s.prevTime : Int)) : Rat) := by
+              have : 0 ≤ (preResult cfg s).2 - s.prevTime := by omega
+              exact_mod_cast this
+            have : updateHead cfg.pi t p p q ((((preResult cfg s).2 - s.prevTime : Int)) : Rat) ≤ p := by
+              unfold updateHead
+              rw [S.hcyl]
+              have hpos : 0 < cfg.pi * (t.diam * t.diam) := by
+                have : 0 < t.diam * t.diam := by
+                  rcases lt_or_gt_of_ne S.hd with h | h
+                  · exact mul_pos_of_neg_of_neg h h
+                  · exact mul_pos h h
+                exact mul_pos S.hpi this
+              have : 4 * (q * ((((preResult cfg s).2 - s.prevTime : Int)) : Rat)) / (cfg.pi * (t.diam * t.diam)) ≤ 0 :=
+                div_nonpos_of_nonpos_of_nonneg (by nlinarith) (le_of_lt hpos)
+              linarith
+            linarith
+      refine ⟨?_, ?_⟩
+      · rw [e]; intro x hx h hh
+        rcases List.mem_cons.mp hx with e' | e'
+        · rw [e'] at hh; exact hbound h hh
+        · exact hrows x e' h hh
+      · right
+        refine ⟨hfs, ?_⟩
+        -- tank i has a head in the new row
+        have hex : ∃ h, r.heads[i]? = some h := by
+          rcases hst with ⟨hf, h', hh', _⟩ | ⟨hf, p, hp, hhp, _, _⟩
+          · have : r.heads = s.heads := by rw [hrh]; unfold acceptedHeads; simp [hf]
+            exact ⟨h', by rw [this]; exact hh'⟩
+          · obtain ⟨⟨dem, q, hdem, hq, _⟩, _, _⟩ := Hgood s hreach hf herr
+            exact ⟨_, step_head cfg s r e hf i t S.ht p p q dem hp hhp hdem hq⟩
+        obtain ⟨h, hh⟩ := hex
+        have hl := step_lasts cfg s r e j i rc ⟨.head, .ge, θ⟩ t h S.hrc S.hpost S.hcond S.ht S.hcyl hh
+        refine ⟨h, by rw [hph]; exact hh, by rw [hhs]; exact hh, ?_, hbound h hh⟩
+        simp only [attrValue] at hl
+        rw [List.getD_eq_getElem?_getD, hl]; rfl
+  have hrun : ∀ n s, J s → ∀ r ∈ (run cfg n s).rows, ∀ h, r.heads[i]? = some h → h ≤ θ + Q / A := by
+    intro n
+    induction n with
+    | zero => intro s hj; exact hj.2.1
+    | succ m ih =>
+      intro s hj
+      unfold run
+      split
+      · exact hj.2.1
+      · rename_i hc
+        have herr : s.error = false := by
+          simp only [Bool.or_eq_true, decide_eq_true_eq, not_or] at hc
+          simpa using hc.1
+        exact ih _ (hstep s hj herr)
+  intro n
+  apply hrun n
+  refine ⟨Reach.refl, by simp [init], Or.inl ⟨by simp [init], ?_⟩⟩
+  obtain ⟨h, hh, hb⟩ := h0
+  exact ⟨h, by simpa [init] using hh, hb⟩
+
+end RunLimits
+
 /-- `limits_hold_along_run` (min side, levels of one cylindrical tank along consecutive reported rows, oldest first as
 `(time, level, demand)`): if
   (Hflow) a tank at or below `min` does not discharge at a reported row  — hydraulics: C02 `closed_link_zero_flow` + flow
@@ -606,7 +1165,7 @@ theorem limit_one_sided_min (pi : Rat) (t : Tank) (hc : t.curve = none) (hpi : 0
           computed from the accepted level and some link it closes is an open tracked pipe/pump (`closes_of_open_nonvalve`);
   (Hint)  levels integrate the reported demand (`level_trace_is_integral_run`),
 then every level stays above `min − Q/A·1 s`, `Q` a bound of the reported flows. -/
-theorem limits_hold_along_run (A mn Q : Rat) (hA : 0 < A) (hQ : 0 ≤ Q) :
+theorem limits_hold_along_run (A mn Q : Rat) (hA : 0 < A) (_hQ : 0 ≤ Q) :
     ∀ (rows : List (Rat × Rat × Rat)) (l0 q0 t0 : Rat), mn - Q / A ≤ l0 →
       List.IsChain (fun (a b : Rat × Rat × Rat) =>
         a.1 ≤ b.1 ∧ A * (b.2.1 - a.2.1) = a.2.2 * (b.1 - a.1)            -- Hint, time moves forward
